@@ -108,14 +108,20 @@ def parseTree (toks : List String) : Option Node :=
 /-- `<unsafe><xhtml><hardwraps><ea><esc><align>` (digits) and `<table><strike><task><dl><foot>` (bits) -/
 def parseCfg (o e : String) : Option RCfg :=
   match o.toList, e.toList with
-  | [u, x, h, ea, s, a], [t, st, k, d, f] =>
+  | [u, x, h, ea, s, a], t :: st :: k :: d :: f :: more =>
     let dig (c : Char) : Nat := c.toNat - 48
     let opts : Opts := {
       unsafe_ := bit u, xhtml := bit x, hardWraps := bit h,
       ea := if dig ea == 0 then none else some (dig ea),
       writerEsc := if bit s then some true else none,
       tableAlign := if dig a == 0 then none else some (dig a) }
-    some (mkRCfg opts { table := bit t, strike := bit st, task := bit k, dl := bit d, foot := bit f })
+    let rc := mkRCfg opts { table := bit t, strike := bit st, task := bit k, dl := bit d, foot := bit f }
+    -- `F`: the harness' templated footnote options (docs.go, Cfg letter F)
+    if more == ['F'] then
+      some { rc with footc := { idPrefix := some (strBytes "p-"), linkTitle := strBytes "note ^^ of %%",
+                                backlinkTitle := strBytes "back ^^ (%% refs)", linkClass := strBytes "fr fr-^^",
+                                backlinkClass := strBytes "fb fb-%%", backlinkHTML := strBytes "^^/%%" } }
+    else if more == [] then some rc else none
   | _, _ => none
 
 end Driver.Rend
